@@ -31,6 +31,13 @@ def check_type(drv, sel, X, y, feats, dtype, measure_name, filter_kind, cfg, ret
         indep[f] = iv
         stats["measures_checked"] += 1
         both_nan = math.isnan(v) and (math.isnan(iv) or iv <= 1e-6)   # R_measure: a (numerically) null R² is undefined
+        # the same value by the Lean model of the measure (exact rationals; the definitions the C15 theorems are about)
+        lv = selgen.lean_measure(drv, iname, X[f].tolist(), y.tolist())
+        if lv is not None:
+            stats["measures_vs_lean"] = stats.get("measures_vs_lean", 0) + 1
+            if not ((math.isnan(lv) and math.isnan(iv)) or abs(lv - iv) <= 1e-9 * max(1.0, abs(iv))):
+                fails.append({"kind": "correspondence", "what": "Lean model of a measure differs from its numpy recomputation", "feature": f,
+                              "measure": iname, "lean": lv, "numpy": iv})
         if not both_nan and not (abs(v - iv) <= 1e-9 * max(1.0, abs(iv))):
             fails.append({"kind": "property", "what": "a reported association value differs from its independent recomputation",
                           "feature": f, "measure": measure_name, "reported": v, "recomputed": iv,
@@ -42,7 +49,15 @@ def check_type(drv, sel, X, y, feats, dtype, measure_name, filter_kind, cfg, ret
     fl = list(feats)
     for i, a in enumerate(fl):
         for b in fl[i + 1:]:
-            assoc.append([a, b, frac(selgen.pair_assoc(filter_kind, X[a].tolist(), X[b].tolist()))])
+            pa = selgen.pair_assoc(filter_kind, X[a].tolist(), X[b].tolist())
+            assoc.append([a, b, frac(pa)])
+            if stats.get("pairs_vs_lean", 0) < 400:       # the same association by the Lean model (bounded per chunk: O(n^2) exact ranks)
+                la = selgen.lean_pair_assoc(drv, filter_kind, X[a].tolist(), X[b].tolist())
+                if la is not None:
+                    stats["pairs_vs_lean"] = stats.get("pairs_vs_lean", 0) + 1
+                    if not ((math.isnan(la) and math.isnan(pa)) or abs(la - pa) <= 1e-9 * max(1.0, abs(pa))):
+                        fails.append({"kind": "correspondence", "what": "Lean model of a pairwise association differs from its numpy recomputation",
+                                      "pair": [a, b], "filter": filter_kind, "lean": la, "numpy": pa})
     r = drv.call({"op": "select", "feats": [[f, None if math.isnan(keys[f]) else frac(keys[f])] for f in fl], "assoc": assoc,
                   "thresh": frac(cfg["thresh_corr"]), "n_best": cfg["n_best"], "returned": returned})
     if not r["ok"]:
